@@ -1,12 +1,20 @@
 use crate::common::Emitter;
 
+pub mod c16;
 pub mod c17;
+pub mod c18;
+pub mod diffparse;
+pub mod c19;
 
 /// Registry: suite name → runner. Each runner replays `corpus` (a JSONL file of inputs) first
 /// when given, then generates `count` cases from `seed`.
 pub fn run(suite: &str, seed: u64, count: u64, corpus: Option<&str>, em: &mut Emitter) -> bool {
     match suite {
+        "c16" => c16::run(seed, count, corpus, em),
         "c17" => c17::run(seed, count, corpus, em),
+        "c18" => c18::run(seed, count, corpus, em),
+        "diffparse" => diffparse::run(seed, count, corpus, em),
+        "c19" => c19::run(seed, count, corpus, em),
         _ => return false,
     }
     true
